@@ -109,6 +109,15 @@ func configs(thorough bool) []cfg {
 			}
 		}
 	}
+	// numeric edge tuples (large thread counts, memory below/above the usual, long digests,
+	// many rounds; scrypt with larger cost / r / p)
+	for _, e := range [][4]uint32{{1, 8, 16, 16}, {1, 8, 17, 16}, {1, 8, 33, 16}, {1, 8, 64, 16}, {1, 8, 255, 16}, {3, 8, 1, 16}, {10, 8, 1, 16}, {1, 4096, 1, 16}, {1, 65536, 4, 32},
+		{1, 7, 1, 16}, {1, 0, 1, 16}, {1, 8, 1, 1}, {1, 8, 1, 64}, {1, 8, 1, 512}, {2, 100, 5, 20}} {
+		out = append(out, cfg{sets: []pset{{id: 6, t: e[0], m: e[1], th: uint8(e[2]), l: e[3]}}, def: 6})
+	}
+	for _, e := range [][3]int{{10, 0, 0}, {14, 0, 0}, {8, 8, 1}, {6, 16, 1}, {6, 1, 16}, {4, 4, 4}, {1, 64, 0}, {1, 0, 64}} {
+		out = append(out, cfg{sets: []pset{{id: 8, scrypt: true, cost: uint(e[0]), r: e[1], p: e[2], key: keys[0]}}, def: 8})
+	}
 	// several sets, every default (incl. one that is neither first nor lowest)
 	multi := []pset{
 		{id: 5, scrypt: true, cost: 2, r: 2, p: 1, key: keys[0]},
